@@ -1750,11 +1750,18 @@ func (c *Conn) readHeader(b []byte, res *fasthttp.Response, first bool) error {
 		}
 	}
 
+	// Next cannot know where in the block it is, and so let a dynamic table
+	// size update through after a field, where RFC 7541 4.2 forbids it. The
+	// block is complete here, so its position is simply the field count.
+	fields := 0
+
 	for len(b) > 0 {
-		b, err = dec.Next(hf, b)
+		b, err = dec.nextField(hf, true, fields, b)
 		if err != nil {
 			return errHeaderDecoding{err}
 		}
+
+		fields++
 
 		if invalid != nil || res == nil {
 			continue
